@@ -331,6 +331,12 @@ class ShortTimeFourierTransformFrameComputer(LinearFilterBankFrameComputer):
         else:
             self._frame_length = int(0.001 * frame_length_ms * bank.sampling_rate)
         self._buf = np.empty(self._frame_length, dtype=np.float64)
+        # the last (at most) frame_length samples of the utterance, the total number
+        # of samples seen and the number of frames emitted. Needed by `finalize`
+        self._hist = np.empty(self._frame_length, dtype=np.float64)
+        self._hist_len = 0
+        self._total_len = 0
+        self._num_emitted = 0
         if window_function is None:
             if frame_style == "causal":
                 window_function = GammaWindow()
@@ -465,6 +471,17 @@ class ShortTimeFourierTransformFrameComputer(LinearFilterBankFrameComputer):
         # length - buf_len may be negative, which will skip samples
         buf_len = self._buf_len
         chunk_len = len(chunk)
+        if chunk_len >= self._frame_length:
+            self._hist[:] = chunk[chunk_len - self._frame_length :]
+            self._hist_len = self._frame_length
+        elif chunk_len:
+            keep = min(self._hist_len, self._frame_length - chunk_len)
+            self._hist[
+                self._frame_length - chunk_len - keep : self._frame_length - chunk_len
+            ] = self._hist[self._frame_length - keep :]
+            self._hist[self._frame_length - chunk_len :] = chunk
+            self._hist_len = keep + chunk_len
+        self._total_len += chunk_len
         total_len = chunk_len + buf_len
         noncausal_first = self._frame_style == "centered"
         noncausal_first &= self._first_frame
@@ -517,6 +534,7 @@ class ShortTimeFourierTransformFrameComputer(LinearFilterBankFrameComputer):
                 noncausal_first = False
             self._compute_frame(frame, coeffs[frame_idx])
             self._first_frame = False
+        self._num_emitted += num_frames
         rem_len = total_len - num_frames * frame_shift
         assert rem_len < frame_length
         if rem_len > 0:
@@ -540,33 +558,49 @@ class ShortTimeFourierTransformFrameComputer(LinearFilterBankFrameComputer):
         return coeffs
 
     def finalize(self) -> np.ndarray:
-        buf_len = self._buf_len
         frame_length = self._frame_length
         frame_shift = self._frame_shift
+        total_len = self._total_len
         if self._frame_style == "causal":
             pad_left = 0
         elif self._kaldi_shift:
             pad_left = frame_length // 2 - frame_shift // 2
         else:
             pad_left = (frame_length + 1) // 2 - 1
-        num_frames = buf_len + frame_shift // 2
-        if not self._first_frame:
-            num_frames -= pad_left
-            pad_left = 0
-        num_frames //= frame_shift
+        # the total number of frames must match that of compute_full
+        if total_len < frame_length // 2 + 1:
+            num_frames = 0
+        else:
+            num_frames = (total_len + frame_shift // 2) // frame_shift
+        num_frames = max(0, num_frames - self._num_emitted)
         if num_frames >= 1:
-            pad_right = (num_frames - 1) * frame_shift + frame_length - buf_len
-            pad_right -= pad_left
+            # the remaining frames lie within the last frame_length samples of the
+            # signal plus its reflection. If fewer than frame_length samples were
+            # seen, _hist is the entire signal
+            hist = self._hist[frame_length - self._hist_len :]
+            hist_start = total_len - self._hist_len
+            first = self._num_emitted * frame_shift - pad_left
+            last = (self._num_emitted + num_frames - 1) * frame_shift - pad_left
+            last += frame_length
+            pad_left = max(0, hist_start - first)
+            pad_right = max(0, last - total_len)
             coeffs = np.empty((num_frames, self.num_coeffs), dtype=self._chunk_dtype)
-            frames = np.pad(self._buf[-buf_len:], (pad_left, pad_right), "symmetric",)
+            frames = np.pad(hist, (pad_left, pad_right), "symmetric")
+            first -= hist_start - pad_left
             for frame_idx in range(num_frames):
                 frame = frames[
-                    frame_idx * frame_shift : frame_idx * frame_shift + frame_length
+                    first
+                    + frame_idx * frame_shift : first
+                    + frame_idx * frame_shift
+                    + frame_length
                 ]
                 self._compute_frame(frame, coeffs[frame_idx])
         else:
             coeffs = np.empty((0, self.num_coeffs), dtype=self._chunk_dtype)
         self._buf_len = 0
+        self._hist_len = 0
+        self._total_len = 0
+        self._num_emitted = 0
         self._started = False
         self._first_frame = True
         return coeffs
